@@ -1034,5 +1034,59 @@ theorem c04_shape_TreeNodeInstance_dispatchMsgToProtocol :
     Shapes.treenode_TreeNodeInstance_dispatchMsgToProtocol =
    ["rx.add", "n.aggregate", "n.dispatchChannel", "n.dispatchHandler"] := rfl
 
+theorem c04_shape_TreeNodeInstance_dispatchHandler :
+    Shapes.treenode_TreeNodeInstance_dispatchHandler =
+   ["n.hasFlag", "to.Elem", "n.createValueAndVerify", "msgs.Index", "Index().Set", "f.Call",
+     "errV.IsValid", "errV.IsNil", "n.createValueAndVerify", "f.Call", "errV.IsNil"] := rfl
+
+theorem c04_shape_TreeNodeInstance_dispatchChannel :
+    Shapes.treenode_TreeNodeInstance_dispatchChannel =
+   ["defer{", "}", "n.hasFlag", "to.Elem", "to.Elem", "n.createValueAndVerify", "out.Index",
+     "Index().Set", "to.Elem", "n.createValueAndVerify", "out.Len", "out.Cap",
+     "msgDispatchQueueMutex.Lock", "msgDispatchQueueMutex.Unlock", "out.Send"] := rfl
+
+theorem c04_shape_TreeNodeInstance_RegisterHandler :
+    Shapes.treenode_TreeNodeInstance_RegisterHandler =
+   ["uint32", "if:(cr.Kind()!=reflect.Func)", "return:xerrors.New(\"\")", "if:(cr.NumOut()!=1)",
+     "return:xerrors.New(\"\")", "if:(cr.Out(0)!=reflect.TypeOf().Elem())",
+     "return:xerrors.New(\"\")", "cr.In", "if:(ci.Kind()==reflect.Slice)", "ci.Elem",
+     "if:(ci.Kind()!=reflect.Struct)", "return:xerrors.New(\"\")", "if:(ci.NumField()!=2)",
+     "return:xerrors.New(\"\")", "if:(ci.Field().Type!=reflect.TypeOf(&?))",
+     "return:xerrors.New(\"\")", "ptr.Interface", "network.RegisterMessage", "return:nil"] := rfl
+
+theorem c04_shape_TreeNodeInstance_RegisterChannelLength :
+    Shapes.treenode_TreeNodeInstance_RegisterChannelLength =
+   ["uint32", "if:(cr.Kind()==reflect.Ptr)", "val.Set",
+     "return:n.RegisterChannel(reflect.Indirect().Interface())", "else",
+     "if:reflect.ValueOf().IsNil()", "return:xerrors.New(\"\")", "if:(cr.Kind()!=reflect.Chan)",
+     "return:xerrors.New(\"\")", "if:(cr.Elem().Kind()==reflect.Slice)", "cr.Elem",
+     "if:(cr.Elem().Kind()!=reflect.Struct)", "return:xerrors.New(\"\")",
+     "if:(cr.Elem().NumField()!=2)", "return:xerrors.New(\"\")",
+     "if:(cr.Elem().Field().Type!=reflect.TypeOf(&?))", "return:xerrors.New(\"\")",
+     "m.Interface", "network.RegisterMessage", "return:nil"] := rfl
+
+theorem c04_shape_TreeNodeInstance_RegisterChannel :
+    Shapes.treenode_TreeNodeInstance_RegisterChannel =
+   ["n.RegisterChannelLength", "if:(err!=nil)", "return:xerrors.Errorf(\"\",err)", "return:nil"] := rfl
+
+theorem c04_shape_TreeNodeInstance_RegisterHandlers :
+    Shapes.treenode_TreeNodeInstance_RegisterHandlers =
+   ["n.RegisterHandler", "if:(err!=nil)", "return:xerrors.Errorf(\"\",h,err.Error())",
+     "return:nil"] := rfl
+
+theorem c04_shape_TreeNodeInstance_RegisterChannels :
+    Shapes.treenode_TreeNodeInstance_RegisterChannels =
+   ["n.RegisterChannel", "if:(err!=nil)", "return:xerrors.Errorf(\"\",ch,err.Error())",
+     "return:nil"] := rfl
+
+theorem c04_shape_TreeNodeInstance_RegisterChannelsLength :
+    Shapes.treenode_TreeNodeInstance_RegisterChannelsLength =
+   ["n.RegisterChannelLength", "if:(err!=nil)", "return:xerrors.Errorf(\"\",ch,err.Error())",
+     "return:nil"] := rfl
+
+theorem c04_shape_TreeNodeInstance_hasFlag :
+    Shapes.treenode_TreeNodeInstance_hasFlag =
+   ["return:((n.messageTypeFlags[]&f)!=0)"] := rfl
+
 
 end C04
